@@ -144,6 +144,13 @@ func c14ReservedSpec(rng *rand.Rand, i int) *SessSpec {
 		sp.Steps = append(sp.Steps, Step{Op: "append", VB: rng.Intn(sp.NumVB), Items: sn})
 	}
 	sp.Steps = append(sp.Steps, Step{Op: "barrier"}, Step{Op: "absorbedcommit"})
+	if i%3 == 1 {
+		// ... and neither does a rebalance that follows (positions reached through reserved keys alone are not handed over by a write)
+		sp.Membership = "dynamic"
+		sp.FirstInfo = [2]int{1, 1}
+		sp.API = true
+		sp.Steps = append(sp.Steps, Step{Op: "rebalancenowrite"})
+	}
 	return sp
 }
 
@@ -202,6 +209,9 @@ func runC14(sc drv.Scenario) drv.Result {
 			}
 		}
 		for _, r := range tr.Log {
+			if r.K == "ctl.rebalancewrites" && r.A > 0 {
+				fs = append(fs, Finding{"C14", "flag", "C14/reserved-flagged-by-rebalance", fmt.Sprintf("after a completed save and traffic consisting only of reserved-key events, a rebalance performed %d checkpoint write(s)", r.A)})
+			}
 			if r.K == "ctl.absorbedcommit" && r.A > 0 {
 				fs = append(fs, Finding{"C14", "flag", "C14/reserved-flagged-for-saving", fmt.Sprintf("after traffic consisting only of reserved-key events, Commit() performed %d checkpoint write(s)", r.A)})
 			}
@@ -277,6 +287,40 @@ func c14Names(sc drv.Scenario, p *c14Params) drv.Result {
 		}
 		if len(ex) < 3 {
 			ex = append(ex, fmt.Sprintf("(%q,%d) -> %q", trunc(g, 30), vb, trunc(keys[len(keys)-1], 70)))
+		}
+		// several vBuckets in ONE save: every one of them is written under its own key
+		if sc.Kind == "names" && i%7 == 0 {
+			vbs := []uint16{vb, (vb + 1) % 1024, (vb + 513) % 1024}
+			st := map[uint16]*models.CheckpointDocument{}
+			dirty := map[uint16]bool{}
+			for _, v := range vbs {
+				st[v] = models.NewEmptyCheckpointDocument("u")
+				dirty[v] = true
+			}
+			before := env.Log.Len()
+			if err := md.Save(st, dirty, "u"); err != nil {
+				return drv.Result{Verdict: drv.Inconclusive, Detail: fmt.Sprintf("multi save for group %q failed: %v", g, err)}
+			}
+			got := map[string]bool{}
+			for _, r := range env.Log.Snapshot()[before:] {
+				if r.K == "sim.docwrite" {
+					got[r.S] = true
+				}
+			}
+			res.Checks++
+			for _, v := range vbs {
+				want := fmt.Sprintf("%s%s:checkpoint:%d", c14Prefix, g, v)
+				if k, ok := keyOf[fmt.Sprintf("%s\x00%d", g, v)]; ok {
+					want = k
+				}
+				if !got[want] {
+					var ks []string
+					for k := range got {
+						ks = append(ks, k)
+					}
+					return drv.Result{Verdict: drv.Violated, Clause: "injective", FindingKey: "C14/multi-save-keys", Detail: fmt.Sprintf("group %q: one save of vBuckets %v wrote keys %v; the key of vb %d (%q) is missing", g, vbs, ks, v, want)}
+				}
+			}
 		}
 	}
 	res.SubEvals = res.Checks
